@@ -255,14 +255,17 @@ EFFECTS = [
     ("method", "MOPX", "upper|lower|strip|startswith|endswith|format|split|join|replace|difference|union|intersection"
      "|issubset|isdisjoint|count|abs|max|min|sum|tolist", "pure", "wrap", [], "str/set/number methods on read values"),
     ("method", "P", "optimize", "pure", "value", [], "optlang Model.optimize: solves, changes only solution status/primal values"),
-    ("method", "P", "update", "pure", "value", [], "optlang Model.update(): flushes pending additions, no content change"),
-    ("call", "*", "get_solution|linear_reaction_coefficients|check_solver_status|assert_optimal|interface_to_str"
-     "|create_stoichiometric_matrix|constraint_matrices|nullspace|_valid_atoms|get_context", "pure", "wrap", [],
-     "core/solution.py get_solution L244-, solver.py L71-105, L525-590: read primal/dual values, status, coefficients"),
-    ("call", "*", "len|list|set|dict|tuple|frozenset|sorted|reversed|enumerate|zip|iter|next|min|max|sum|abs|any|all|str|repr"
-     "|float|int|bool|isinstance|hasattr|getattr|type|id|print|product|chain|combinations|range|round|format|warn|fromkeys"
-     "|array|DataFrame|Series|concat|full|zeros|linspace|attrgetter|itemgetter|partial|map|filter|add|deepcopy", "pure", "wrap", [],
-     "builtins / itertools / numpy / pandas constructors: read their arguments"),
+    ("method", "P", "update/0", "pure", "value", [], "optlang Model.update() (no arguments): flushes pending additions, no content change"),
+    ("call", "*", "get_solution|check_solver_status|assert_optimal|create_stoichiometric_matrix|constraint_matrices|nullspace"
+     "|_valid_atoms", "pure", "value", [],
+     "core/solution.py get_solution, solver.py check_solver_status/assert_optimal, util/array.py: read primal/dual values, status, coefficients"),
+    ("call", "*", "linear_reaction_coefficients|get_context", "pure", "wrap", [],
+     "solver.py L71-105 reads the objective expression, returns a dict keyed by the model's reactions; context.py L49-79"),
+    ("call", "*", "len|abs|any|all|str|repr|float|int|bool|isinstance|hasattr|type|id|print|range|round|format|warn|sum|full|zeros"
+     "|linspace|interface_to_str", "pure", "value", [], "builtins / numpy: read their arguments, return plain data"),
+    ("call", "*", "list|set|dict|tuple|frozenset|sorted|reversed|enumerate|zip|iter|next|min|max|getattr|product|chain|combinations"
+     "|fromkeys|array|DataFrame|Series|concat|attrgetter|itemgetter|partial|map|filter|add|deepcopy", "pure", "wrap", [],
+     "builtins / itertools / pandas constructors: read their arguments, may return (containers of) them"),
     ("call", "*", "append|extend|insert|update|add|setdefault|pop|remove|discard|sort|clear|difference|union|intersection"
      "|items|keys|values|get|index|count|join|format|debug|info|warning|error|where|mul|abs|tolist|copy", "pure", "wrap", [],
      "methods of a local container / DataFrame / logger: mutate the local object only, never its elements"),
